@@ -597,10 +597,23 @@ def compute_drho(ctx, mod):
     f = mod.func('Obs.gamma_method._compute_drho')
     iv = f.args.args[0].arg
     key = 'obs.py:Obs.gamma_method._compute_drho'
-    tmp = [s for s in statements(f) if isinstance(s, ast.Assign) and isinstance(s.targets[0], ast.Name)]
+    assigns = [s for s in statements(f) if isinstance(s, ast.Assign) and isinstance(s.targets[0], ast.Name)]
     store = [s for s in statements(f) if isinstance(s, ast.Assign) and isinstance(s.targets[0], ast.Subscript)]
-    if len(tmp) != 1 or len(store) != 1:
-        ctx.unrec(rule, key, 'expected one local and one store')
+    if len(store) != 1:
+        ctx.unrec(rule, key, 'expected one store')
+        return
+    used = {n.id for n in walk(store[0].value) if isinstance(n, ast.Name)}
+    tmp = [s for s in assigns if s.targets[0].id in used]
+    # further locals (an alias of the rho array, an index vector built with np.arange) are evaluated where they are used
+    local_defs = {}
+    for s in assigns:
+        if s not in tmp:
+            if s.targets[0].id in local_defs:
+                ctx.unrec(rule, key, 'local %s is assigned twice' % s.targets[0].id)
+                return
+            local_defs[s.targets[0].id] = s.value
+    if len(tmp) != 1:
+        ctx.unrec(rule, key, 'expected one local that is stored')
         return
 
     def ev_int(e, env):
@@ -609,12 +622,33 @@ def compute_drho(ctx, mod):
         if isinstance(e, ast.Constant):
             return e.value
         if isinstance(e, ast.Name):
+            if e.id not in env and e.id in local_defs:
+                return ev_int(local_defs[e.id], env)
             return env[e.id]
         if isinstance(e, ast.UnaryOp) and isinstance(e.op, ast.USub):
-            return -ev_int(e.operand, env)
-        if isinstance(e, ast.BinOp):
+            v = ev_int(e.operand, env)
+            return [-x for x in v] if isinstance(v, list) else -v
+        if isinstance(e, ast.BinOp) and type(e.op) in (ast.Add, ast.Sub, ast.Mult, ast.FloorDiv):
             a, b = ev_int(e.left, env), ev_int(e.right, env)
-            return {ast.Add: lambda: a + b, ast.Sub: lambda: a - b, ast.Mult: lambda: a * b, ast.FloorDiv: lambda: a // b}[type(e.op)]()
+            fn = {ast.Add: lambda x, y: x + y, ast.Sub: lambda x, y: x - y, ast.Mult: lambda x, y: x * y, ast.FloorDiv: lambda x, y: x // y}[type(e.op)]
+            # an index vector (np.arange) broadcasts against integers and against a vector of the same length
+            if isinstance(a, list) and isinstance(b, list):
+                if len(a) != len(b):
+                    raise Unrecognised('length mismatch %d vs %d' % (len(a), len(b)))
+                return [fn(x, y) for x, y in zip(a, b)]
+            if isinstance(a, list):
+                return [fn(x, b) for x in a]
+            if isinstance(b, list):
+                return [fn(a, y) for y in b]
+            return fn(a, b)
+        if isinstance(e, ast.Call) and call_name(e) == 'arange' and not e.keywords and 1 <= len(e.args) <= 3:
+            vals = [ev_int(a, env) for a in e.args]
+            if any(isinstance(v, list) for v in vals):
+                raise Unrecognised('integer expression %s' % unparse(e))
+            return list(range(*vals))
+        if isinstance(e, ast.Call) and call_name(e) in ('abs', 'absolute') and len(e.args) == 1 and not e.keywords:
+            v = ev_int(e.args[0], env)
+            return [abs(x) for x in v] if isinstance(v, list) else abs(v)
         if isinstance(e, ast.IfExp):
             return ev_int(e.body, env) if ev_bool(e.test, env) else ev_int(e.orelse, env)
         if isinstance(e, ast.Call) and call_name(e) in ('max', 'min'):
@@ -628,16 +662,30 @@ def compute_drho(ctx, mod):
             return {ast.LtE: a <= b, ast.Lt: a < b, ast.GtE: a >= b, ast.Gt: a > b, ast.Eq: a == b, ast.NotEq: a != b}[type(e.ops[0])]
         raise Unrecognised('condition %s' % unparse(e))
 
+    def is_rho(e):
+        if isinstance(e, ast.Name) and e.id in local_defs:
+            return is_rho(local_defs[e.id])
+        return isinstance(e, ast.Subscript) and 'e_rho' in unparse(e.value) and not isinstance(e.slice, ast.Slice) and unparse(e.slice) == 'e_name'
+
     def ev_vec(e, env):
         """list of (coefficient-structure) : we evaluate index lists; arithmetic is tracked as tuples"""
-        if isinstance(e, ast.Subscript) and 'e_rho' in unparse(e.value):
+        if isinstance(e, ast.Name) and e.id in local_defs and not is_rho(e):
+            return ev_vec(local_defs[e.id], env)
+        if isinstance(e, ast.Subscript) and is_rho(e.value):
             sl = e.slice
             n = env['w_max']
             idx = list(range(n))
             if isinstance(sl, ast.Slice):
                 lo, hi, st = ev_int(sl.lower, env), ev_int(sl.upper, env), ev_int(sl.step, env)
                 return [('rho', k) for k in idx[slice(lo, hi, st)]]
-            return ('scalar', ('rho', idx[ev_int(sl, env)]))
+            j = ev_int(sl, env)
+            if isinstance(j, list):
+                # indexing with an integer array: element-wise, negative entries count from the end as in numpy
+                try:
+                    return [('rho', idx[x]) for x in j]
+                except IndexError:
+                    raise Unrecognised('length mismatch: index out of range 0..%d in %s' % (n - 1, j))
+            return ('scalar', ('rho', idx[j]))
         if isinstance(e, ast.Call) and call_name(e) == 'concatenate':
             parts = e.args[0].elts
             out = []
@@ -659,6 +707,24 @@ def compute_drho(ctx, mod):
         if isinstance(e, ast.Constant):
             return ('scalar', e.value)
         raise Unrecognised('vector expression %s' % unparse(e))
+    from fractions import Fraction
+    PRIMES = [2, 3, 5, 7, 11, 13, 17, 19, 23, 29, 31, 37, 41, 43, 47, 53, 59, 61, 67, 71, 73, 79, 83]
+
+    def num(t, vals):
+        if isinstance(t, (int, float)):
+            return Fraction(t)
+        if t[0] == 'rho':
+            return vals[t[1]]
+        if t[0] == 'scalar':
+            return num(t[1], vals)
+        a, b = num(t[1], vals), num(t[2], vals)
+        if t[0] == 'Add':
+            return a + b
+        if t[0] == 'Sub':
+            return a - b
+        if t[0] == 'Mult':
+            return a * b
+        raise Unrecognised('operator %s in the terms' % t[0])
     bad = None
     n_cases = 0
     try:
@@ -677,9 +743,21 @@ def compute_drho(ctx, mod):
                 for k in range(1, w - i):
                     t1, t2, t3 = ('rho', i + k), ('rho', abs(i - k)), ('rho', k)
                     want.append(('Sub', ('Add', t1, t2), ('Mult', ('scalar', ('Mult', ('scalar', 2), ('scalar', ('rho', i)))), t3)))
-                norm = lambda x: repr(x)
-                if norm(got) != norm(want):
-                    bad = (w, i, 'terms differ at k=%s' % next((k + 1 for k, (a_, b_) in enumerate(zip(got, want)) if repr(a_) != repr(b_)), 'length %d vs %d' % (len(got), len(want))))
+                if not isinstance(got, list):
+                    raise Unrecognised('the terms are not a vector')
+                # the two term lists are compared as polynomials in rho(0..w_max-1), on three rational points
+                differ = None
+                if len(got) != len(want):
+                    differ = 'length %d vs %d' % (len(got), len(want))
+                else:
+                    for pt in range(3):
+                        vals = {k: Fraction(1, PRIMES[(k + 7 * pt) % len(PRIMES)]) for k in range(w)}
+                        d_ = next((k + 1 for k, (a_, b_) in enumerate(zip(got, want)) if num(a_, vals) != num(b_, vals)), None)
+                        if d_ is not None:
+                            differ = 'terms differ at k=%s' % d_
+                            break
+                if differ:
+                    bad = (w, i, differ)
                     break
             if bad:
                 break
